@@ -2,5 +2,5 @@
 # every stored breaking seed must be detected under its own property; every neutral patch must be silent (or be a documented alarm)
 cd /verif
 for d in seeded/C*; do s=$(basename $d); p=${s%-*}; out=$(./tools/try_patch.sh $d/patch.diff $p 2>&1 | grep -c "^VIOLATION property"); [ "$out" = 0 ] && echo "MISSED $s"; done
-for d in seeded/neutral/*; do s=$(basename $d); out=$(./tools/try_patch.sh $d/patch.diff all 2>&1 | grep -v "^VIOLATION property" | grep -o "VIOLATION [A-Z0-9.a-z]* @[^ ]*\|PATCH-DOES-NOT-APPLY" | sort -u | tr '\n' ';'); [ -n "$out" ] && echo "ALARM $s: $out"; done
+for d in seeded/neutral/*; do s=$(basename $d); out=$(./tools/try_patch.sh $d/patch.diff all 2>&1 | grep -v "^VIOLATION property" | grep -o "VIOLATION [A-Z0-9.a-z]* @[^ ]*\|PATCH-DOES-NOT-APPLY" | sort -u | tr '\n' ';'); if [ -n "$out" ]; then if grep -q '"observed": "alarm"' $d/meta.json 2>/dev/null; then echo "documented $s: $out"; else echo "ALARM $s: $out"; fi; fi; done
 echo done
